@@ -1,11 +1,13 @@
 import Driver.Common
-import Dawn.Model.Mvs
+import Dawn.Model.MvsRef
 /-! driver for the MVS model (C10, C11): one request per line, one answer per line
 
     seq <repo> <nodes> <tags> <refs> <root> <ops>
         nodes : path#version#name>req,req|…        (`-` = none; requirement lists in declared order; req = path#version)
-        tags  : path#version,…                     (`-` = none; in `repo.Versions()` order)
-        refs  : default;path#ref=path#version;path#ref=!;…
+        tags  : path#version!revision,…            (`-` = none; canonical tags in `repo.Versions()` order, with the revision each points at)
+        refs  : default;r=<ref>=<revision>;…;h=<revision>=<yyyymmddhhmmss>=<pseudo id>=<rev.rev.…>;…
+                (the commit history: what each ref names, and for every such revision its time stamp, pseudo id and the
+                 ids `History()` yields, itself first — ref queries are resolved by the model, `resolveRefQuery`)
         root  : name=path#version,…                (`-` = none)
         ops   : bl | tidy | upall | get:<query>, separated by `;` — applied in sequence, every successful edit
                 replaces the requirements
@@ -38,18 +40,27 @@ def parseNode (s : String) : Option (Mod × Summary) :=
     | _ => none
   | _ => none
 
-def parseRefs (s : String) : Option (String × List ((String × String) × Option Mod)) :=
+def parseTag (s : String) : Option (Mod × String) :=
+  match s.splitOn "!" with
+  | [m, r] => (parseMod m).map fun m => (m, r)
+  | [m] => (parseMod m).map fun m => (m, "")
+  | _ => none
+
+/-- default ref, ref ↦ revision, revision ↦ (stamp, pseudo id, history) -/
+def parseRefs (s : String) : Option (String × List (String × String) × List (String × Revision × List String)) :=
   match s.splitOn ";" with
   | [] => none
   | dflt :: rest => do
-    let es ← (rest.filter (· ≠ "")).mapM fun e =>
+    let es := rest.filter (· ≠ "")
+    let rs ← (es.filter (·.startsWith "r=")).mapM fun e =>
       match e.splitOn "=" with
-      | [k, v] =>
-        match k.splitOn "#" with
-        | [p, r] => if v == "!" then some ((p, r), none) else (parseMod v).map fun m => ((p, r), some m)
-        | _ => none
+      | [_, r, rev] => some (r, rev)
       | _ => none
-    some (dflt, es)
+    let hs ← (es.filter (·.startsWith "h=")).mapM fun e =>
+      match e.splitOn "=" with
+      | [_, id, stamp, pid, anc] => some (id, (⟨id, stamp, pid⟩ : Revision), anc.splitOn ".")
+      | _ => none
+    some (dflt, rs, hs)
 
 def parseRoot (s : String) : Option Config :=
   (parseList s ",").mapM fun e =>
@@ -57,13 +68,18 @@ def parseRoot (s : String) : Option Config :=
     | [n, m] => (parseMod m).map fun m => (n, m)
     | _ => none
 
-def mkEnv (repo : String) (nodes : List (Mod × Summary)) (tags : List Mod) (dflt : String)
-    (refs : List ((String × String) × Option Mod)) : Env :=
+def mkEnv (repo : String) (nodes : List (Mod × Summary)) (tags : List (Mod × String)) (dflt : String)
+    (refs : List (String × String)) (hist : List (String × Revision × List String)) : Env :=
+  let h : History :=
+    { refs := fun r => refs.lookup r
+      revision := fun id => (hist.lookup id).map (·.1)
+      ancestors := fun id => ((hist.lookup id).map (·.2)).getD []
+      tagRevs := tags }
   { repo := repo
     summary := fun m => nodes.lookup m
-    tags := tags
+    tags := tags.map (·.1)
     defaultRef := dflt
-    refs := fun p r => (refs.lookup (p, r)).join }
+    refs := refsOf h }
 
 def showMod (m : Mod) : String := m.path ++ "#" ++ m.ver.render
 def showList (xs : List String) : String := if xs.isEmpty then "-" else ",".intercalate xs
@@ -139,9 +155,9 @@ def cmpStrings (a b : String) : Ordering × Ordering :=
 def step (line : String) : String :=
   match line.splitOn " " with
   | ["seq", repo, nodes, tags, refs, root, ops] =>
-    match (parseList nodes "|").mapM parseNode, (parseList tags ",").mapM parseMod, parseRefs refs, parseRoot root with
-    | some ns, some ts, some (dflt, rs), some c =>
-      ";".intercalate (runOps (mkEnv repo ns ts dflt rs) c (ops.splitOn ";"))
+    match (parseList nodes "|").mapM parseNode, (parseList tags ",").mapM parseTag, parseRefs refs, parseRoot root with
+    | some ns, some ts, some (dflt, rs, hs), some c =>
+      ";".intercalate (runOps (mkEnv repo ns ts dflt rs hs) c (ops.splitOn ";"))
     | _, _, _, _ => "bad-input"
   | ["sv", h] =>
     match unhexStr h with
